@@ -99,6 +99,7 @@ func genBatch(r *RNG, withBad bool, maxLines int) *Scenario {
 	}
 	sp.Policy = r.PickS([]string{"random", "random", "random", "fifo", "lifo", "starve", "burst"})
 	sp.RecordP = r.PickF([]float64{1, 1.0 / 7, 1.0 / 30, 1.0 / 365})
+	sp.NoPoolYield = r.Bool(0.15) // coarse stratum: no parking at pooled-file Gets
 	sc.Sched = sp
 	return sc
 }
